@@ -24,8 +24,9 @@ def band(a, b):
     return bool(a) and bool(b)
 
 
-def grid_unit(S, E, m, n, form):
-    """solve_stochast post-processing on an arbitrary LEGAL exact path with m events, grid of n+1 points"""
+def grid_unit(S, E, m, n, form, late=False):
+    """solve_stochast post-processing on an arbitrary LEGAL exact path with m events, grid of n+1 points.
+    late: the first requested time lies AFTER the initial time (events may fire before the grid starts)"""
     spec = [s for s in shape_specs() if s.name == "shape_%dx%d" % (min(S, 3), min(E, 3))][0]
 
     def h(c):
@@ -53,12 +54,16 @@ def grid_unit(S, E, m, n, form):
             g = [int(k) for k in range(n + 1)]
         else:
             g = [t0]
+            if late:
+                g0 = c.real("g0")
+                c.assume(g0 > t0)
+                g = [g0]
             for k in range(1, n + 1):
                 gk = c.real("g%d" % k)
                 c.assume(gk > g[-1])
                 g.append(gk)
         for ti in ts:
-            for gk in g[1:]:
+            for gk in (g if late else g[1:]):
                 c.assume(ti != gk if c.mode == "sym" else abs(ti - gk) > 1e-9)
         Xa = mat(c, X)
         Ta = arr(c, [t0] + ts)
@@ -90,7 +95,8 @@ def grid_unit(S, E, m, n, form):
         c.prove(len(rows) == n + 1, "one state row per requested time")
         c.prove(np.asarray(cnt, dtype=object).shape == (n, E), "one counts row per interval, one column per event")
         c.prove(len(tout) == n + 1, "requested times are returned")
-        c.prove(all_close(rows[0], list(x0), c), "first row is the initial state")
+        if not late:
+            c.prove(all_close(rows[0], list(x0), c), "first row is the initial state")
         exp_rows = []
         for k in range(n + 1):
             exp_rows.append([x0[s] + zsum(ite(c, ts[i] <= g[k], V[s, idx[i]], 0) for i in range(m)) for s in range(S)])
@@ -102,7 +108,7 @@ def grid_unit(S, E, m, n, form):
             c.prove(all_close(list(cnt[k]), exp_c, c), "interval %d counts are per-event counts of events inside the interval" % k)
             inc = [zsum(V[s, j] * cnt[k][j] for j in range(E)) for s in range(S)]
             c.prove(all_close([rows[k + 1][s] - rows[k][s] for s in range(S)], inc, c), "rows %d->%d differ by V x interval counts" % (k, k + 1))
-    return Unit("C15.grid[S=%d,E=%d,events=%d,grid=%d,form=%s]" % (S, E, m, n, form), h,
+    return Unit("C15.grid[S=%d,E=%d,events=%d,grid=%d,form=%s%s]" % (S, E, m, n, form, ",first requested time after t0" if late else ""), h,
                 bounds={"states": S, "events_kinds": E, "path_events": m, "grid_points": n + 1, "grid_form": form,
                         "path": "arbitrary legal exact path (symbolic times, symbolic integer V, every event-kind sequence)"},
                 max_paths=40000)
@@ -113,12 +119,12 @@ class C15(Check):
     level = "model_checking"
     explanation = ("The real solve_stochast time normalisation and post-processing (_extractObservationAtTime, _addJumpsBetweenTime) run on an "
                    "ARBITRARY legal exact path (C04's postcondition): symbolic event times, every sequence of event kinds, symbolic integer "
-                   "state-change matrix and initial state, and a symbolic grid g0=t0<g1<..<gn that may end before or after the last event "
+                   "state-change matrix and initial state, and a symbolic grid g0=t0<g1<..<gn (or t0<g0: events before the grid starts) that may end before or after the last event "
                    "(grid past extinction).  z3 decides for every relative order of event and grid times that row k is the state after the "
                    "last event not later than g_k, interval counts are per-event counts of events strictly inside the interval, and "
                    "consecutive rows differ by V x counts.  Includes paths with NO event (run started in an absorbing state) and typed integer grids.")
     stubs = ["SimulateOde._jump replaced by a generator of arbitrary legal paths (the property is about the post-processing)"]
-    assumptions = ["no event time coincides exactly with a requested time (measure zero)", "first requested time is the initial time",
+    assumptions = ["no event time coincides exactly with a requested time (measure zero)", "first requested time is the initial time or later",
                    "tau-leap interpolation of states between leaps is not claimed by the property", "floats as reals"]
 
     def units(self, tier, seed):
@@ -131,6 +137,7 @@ class C15(Check):
             us.append(grid_unit(2, 1, 1, 2, "array"))
             us.append(grid_unit(2, 2, 2, 2, "int_array"))
             us.append(grid_unit(1, 1, 2, 2, "int_list"))
+            us.append(grid_unit(2, 2, 2, 2, "array", late=True))
         else:
             for form in ("list", "tuple", "array"):
                 us.append(grid_unit(2, 2, 3, 3, form))
@@ -140,6 +147,9 @@ class C15(Check):
             us.append(grid_unit(2, 1, 3, 3, "list"))
             us.append(grid_unit(2, 2, 3, 3, "int_array"))
             us.append(grid_unit(2, 2, 3, 2, "int_list"))
+            us.append(grid_unit(2, 2, 2, 2, "array", late=True))
+            us.append(grid_unit(2, 2, 3, 2, "array", late=True))
+            us.append(grid_unit(1, 1, 2, 3, "list", late=True))
             for S, E in ((1, 1), (2, 2), (3, 2)):
                 us.append(grid_unit(S, E, 0, 2, "list"))
                 us.append(grid_unit(S, E, 0, 3, "array"))
